@@ -55,6 +55,7 @@ static void parse_guarded_file(const char *path, const char *shape)
     spifconf_init_subsystem();
     spifconf_register_context((spif_charptr_t) "A", ctx_handler);
     g_spawns = 0; g_errors = 0; g_open_files = g_opens = 0; g_hcalls = 0;
+    env_new_epoch();
     g_env_on = 1; g_ledger_on = 1; g_allow_fork = 0; g_home = "/h";
     spif_charptr_t r = spifconf_parse((spif_charptr_t) path, NULL, NULL);
     g_env_on = 0; g_ledger_on = 0; g_allow_fork = 1;
@@ -216,6 +217,7 @@ static void l_apply(void *vs, int op)
 {
     ls_t *s = vs; const char *shape = LN[op]; char *b;
     mc_set_shape(shape);
+    env_new_epoch();
     g_env_on = 1; g_allow_fork = 0; g_home = "/h"; g_spawns = 0;
     switch (op) {
     case O_INIT: spifconf_init_subsystem(); s->init = 1; s->nctx = s->nbi = 0; s->kset = 0; s->nullreg = 0; s->scans = 0; s->argvs = 0; break;
